@@ -125,6 +125,14 @@ pub fn stream_alloc(opt: &HashMap<String, String>) -> i32 {
                 calls.push(AllocCall { algo, method, n, family: if k % 3 == 2 { "sorted" } else { "rampdips" } });
             }
         }
+        if !cold && i % 20 == 2 {
+            // a long history of the same warm call (a caller clustering many matrices in a loop):
+            // anything that accumulates from call to call needs dozens of calls to show
+            calls.clear();
+            let (algo, method) = [(1u8, 0u8), (2, 1), (3, 5), (0, 2), (4, 3), (2, 4), (0, 0), (3, 0)][(i / 20) % 8];
+            let n = if algo == 4 { 20 } else { [50u64, 24, 70][(i / 20) % 3] };
+            for _ in 0..(if thorough { 530 } else { 270 }) { calls.push(AllocCall { algo, method, n, family: "uniform" }); }
+        }
         let outs = if wide { run_hist::<f64>(&mut rng, &calls, cold) } else { run_hist::<f32>(&mut rng, &calls, cold) };
         let mut exp: Vec<i128> = vec![];
         let mut maxn_seen = 0u64;
